@@ -46,6 +46,20 @@ def run(ctx):
         cases.append(c)
     cases.append({"kind": "kx", "da": "1", "db": hex(N - 2)[2:], "ra": "2", "rb": "3", "ida": {"kind": "default"}, "idb": {"kind": "default"}, "klen": 16})
     # identities whose bit length does not fit one byte (ENTL is a 16-bit field): 256, 300 and the maximum 8191 bytes
+    # the ends of the ephemeral range (GM/T 0003.3: r in [1, n-1]) and of the long-term range, on either side
+    for (da, db, ra, rb, note) in ((rk(), rk(), hex(N - 1)[2:], rk(), "initiator's ephemeral scalar n - 1"), (rk(), rk(), rk(), hex(N - 1)[2:], "responder's ephemeral scalar n - 1"),
+                                   (rk(), rk(), "1", hex(N - 1)[2:], "ephemeral scalars 1 and n - 1"), (hex(N - 2)[2:], "1", hex(N - 1)[2:], hex(N - 2)[2:], "all four scalars at the ends")):
+        cases.append({"kind": "kx", "da": da, "db": db, "ra": ra, "rb": rb, "ida": ids(3), "idb": ids(4), "klen": 16, "note": note})
+    # a party whose ephemeral key EQUALS its long-term key (R = P: P + [x~]R degenerates for implementations that add with
+    # formulas for distinct points), whose ephemeral key is the negative of it, and both parties using the same scalars
+    same = rk()
+    cases.append({"kind": "kx", "da": rk(), "db": same, "ra": rk(), "rb": same, "ida": ids(3), "idb": ids(4), "klen": 16, "note": "responder's ephemeral key equals its long-term key"})
+    same2 = rk()
+    cases.append({"kind": "kx", "da": same2, "db": rk(), "ra": same2, "rb": rk(), "ida": ids(3), "idb": ids(4), "klen": 16, "note": "initiator's ephemeral key equals its long-term key"})
+    s3 = int(rk(), 16)
+    cases.append({"kind": "kx", "da": rk(), "db": hex(s3)[2:], "ra": rk(), "rb": hex(N - s3)[2:], "ida": ids(3), "idb": ids(4), "klen": 16, "note": "responder's ephemeral key is the negative of its long-term key"})
+    s4 = rk()
+    cases.append({"kind": "kx", "da": s4, "db": s4, "ra": s4, "rb": s4, "ida": ids(3), "idb": ids(3), "klen": 16, "note": "one scalar in all four places"})
     cases.append({"kind": "kx", "da": rk(), "db": rk(), "ra": rk(), "rb": rk(), "ida": ids(256), "idb": ids(300), "klen": 16, "note": "long identities"})
     cases.append({"kind": "kx", "da": rk(), "db": rk(), "ra": rk(), "rb": rk(), "ida": ids(8191), "idb": ids(255), "klen": 16, "note": "long identities"})
     # sparse scalars (long runs of zero digits in any recoding) as long-term and as ephemeral key
